@@ -66,7 +66,7 @@ LoopF(cfg, opts, r) ==
      ELSE LET a == AllocF(cfg, opts, PresenceF(cfg, opts, u))
           IN IF a.crash THEN [st |-> a, lg |-> Header(r.lg, a, opts)]
              ELSE LET p == PerformF(cfg, opts, StartPhaseF(cfg, opts, a))
-                  IN LoopF(cfg, opts, [st |-> TickF(RecordF(cfg, opts, p)),
+                  IN LoopF(cfg, opts, [st |-> TickF(opts, RecordF(cfg, opts, p)),
                                        lg |-> AppendLogs(cfg, opts, r.lg, p)])
 
 \* simulate() with both initialize flags on
